@@ -148,5 +148,37 @@ pub fn generate(em: &mut Emitter, seed: u64, thorough: bool) {
         );
         check(em, None, &src, &[], &[], "locals of live frames must not alias", &|r| r.ok && (top(r, 2) == vec![6, 5] || (k == 1 && top(r, 2) == vec![6, 6])));
     }
+    // whatever local index a callee uses - in range, the last one, or one the assembler should have
+    // refused (index = number of locals, index 0 without locals) - a program that assembles must
+    // leave the locals of the frame below intact
+    let mut refused = 0u64;
+    for ki in 0..4u64 {
+        for ko in 1..4u64 {
+            for j in [0u64, ki.saturating_sub(1), ki, ki + 1] {
+                for ins in ["push.111 loc_store.{j}", "padw loc_storew.{j} dropw", "push.111 locaddr.{j} mem_store"] {
+                    let body = ins.replace("{j}", &j.to_string());
+                    let decl = if ki == 0 { "proc.inner".to_string() } else { format!("proc.inner.{}", ki) };
+                    let stores: String = (0..ko).map(|i| format!("push.{} loc_store.{} ", 50 + i, i)).collect();
+                    let loads: String = (0..ko).map(|i| format!("loc_load.{} ", i)).collect();
+                    let src = format!("{decl} {body} end\nproc.outer.{ko} {stores} exec.inner {loads} end\nbegin exec.outer end");
+                    direct += 1;
+                    match assemble(None, &src, false) {
+                        Err(_) => {
+                            refused += 1;
+                            if j < ki {
+                                em.oracle_failures.push(format!("C07 valid local index {} of {} refused: {}", j, ki, src));
+                            }
+                        }
+                        Ok(_) => {
+                            let want: Vec<u64> = (0..ko).rev().map(|i| 50 + i).collect();
+                            check(em, None, &src, &[], &[], "a callee's local access must not change the caller's locals",
+                                &|r| r.ok && top(r, ko as usize) == want);
+                        }
+                    }
+                }
+            }
+        }
+    }
+    em.stat("local_index_programs_refused_by_assembler", refused);
     em.stat("direct_oracle_checks", direct);
 }
